@@ -382,6 +382,19 @@ impl CommandParser {
 //@@ body
 //@@ end
 
+//@@ unit parse_expire fn src/storage/commands/executor.rs CommandParser::parse_expire
+//@@   rewrite R1
+//@@   rewrite RCALL parse "*" verif_parse_str
+//@@   at "let seconds"
+//@@|     proof { axiom_strict_is_lossy_i64(arg(frames@, 2)->Some_0); }
+    fn parse_expire(frames: &[RespFrame]) -> (r: Result<KeyCommand>)
+        ensures
+            (frames@.len() != 3 || arg(frames@, 1) is None || num_arg::<i64>(frames@, 2) is None) ==> r is Err,
+            frames@.len() == 3 && arg(frames@, 1) is Some && num_arg::<i64>(frames@, 2) is Some ==>
+                (r matches Ok(KeyCommand::Expire { key, seconds }) && key@ == arg(frames@, 1)->Some_0 && seconds == num_arg::<i64>(frames@, 2)->Some_0),
+//@@ body
+//@@ end
+
 //@@ unit parse_set fn src/storage/commands/executor.rs CommandParser::parse_set
 //@@   rewrite R1
 //@@   rewrite R3
